@@ -171,9 +171,12 @@ type Exec struct {
 	nAsserts    int
 	md5Calls    []md5Call
 	floatArgs   []*Term
+	recordFloats bool
 	obs         []obsRec
 	arrayMode   bool
 	obligation  bool
+	portfolioWins map[string]int
+	pcSet       map[*Term]bool
 	thWG        sync.WaitGroup
 	pathAbortFlag int32
 	fixedModel  Model
